@@ -213,7 +213,7 @@ func overlayFor(groups []string) (map[string][]byte, []string, error) {
 				return fmt.Errorf("%s/%s: missing '// verif:dir' header", dir, e.Name())
 			}
 			ov[filepath.Join(*flagRepo, rel, "zz_verif_"+e.Name())] = b
-			if filepath.Base(dir) != "verifrt" {
+			if filepath.Base(dir) != "verifrt" && filepath.Base(dir) != "kit" {
 				pkgs[modPath+"/"+rel] = true
 			}
 		}
@@ -221,6 +221,13 @@ func overlayFor(groups []string) (map[string][]byte, []string, error) {
 	}
 	if err := add(filepath.Join(*flagHarness, "verifrt")); err != nil {
 		return nil, nil, err
+	}
+	// kit: support package shared by the harness groups (stub network, DAG
+	// tables, the assembled sending stack)
+	if _, err := os.Stat(filepath.Join(*flagHarness, "kit")); err == nil {
+		if err := add(filepath.Join(*flagHarness, "kit")); err != nil {
+			return nil, nil, err
+		}
 	}
 	for _, g := range groups {
 		if err := add(filepath.Join(*flagHarness, g)); err != nil {
@@ -362,6 +369,14 @@ func runObligations(prop string, spec PropSpec, obls []Obligation) int {
 		}
 		res := l.prog.Explore(fn, cfg)
 		fmt.Println(res.Summary())
+		if *flagV {
+			fmt.Printf("  cover: %v\n", res.Covers)
+			for i, sm := range res.Samples {
+				if i < 3 {
+					fmt.Printf("  sample events: %v\n", sm.Events)
+				}
+			}
+		}
 		code := ev.add(l, o, b, res)
 		// witness twin
 		if !*flagWitness && code == 0 {
